@@ -1754,7 +1754,8 @@ impl TransactionBuilder {
             let out_coin = total_output.coin().checked_add(&fee)?;
             total_output.set_coin(&out_coin);
         }
-        if total_input != total_output {
+        // compared as amounts: a token listed with quantity 0 on one side only is not a difference
+        if total_input.partial_cmp(&total_output) != Some(std::cmp::Ordering::Equal) {
             Err(JsError::from_str(&format!(
                 "Total input and total output are not equal. Total input: {}, Total output: {}",
                 total_input.to_json()?, total_output.to_json()?
